@@ -565,9 +565,9 @@ Qed.
 Lemma chars_atomic : forall s, forallb atomic (str_chars s) = true.
 Proof. induction s; simpl; [reflexivity|assumption]. Qed.
 
-Lemma instr_member_kept : forall s sv pol o,
+Lemma instr_member_kept_iterate : forall s sv pol o,
   wf_obj o = true -> member_s o sv = true -> holds_instr s o = Some pol -> nonelementwise_container s o = false ->
-  member o (pred_instr_with model_in_arg s sv pol) = true.
+  member o (pred_instr_with model_in_arg IterateAlways s sv pol) = true.
 Proof.
   intros s sv pol o Hw Hm Hh Hg. destruct o as [| | | |t| | | | | |]; try discriminate.
   simpl in Hh. injection Hh as Hh. unfold pred_instr_with, model_in_arg.
@@ -587,23 +587,53 @@ Proof.
   rewrite Hh. rewrite Bool.eqb_reflx. rewrite member_single. exact Hm.
 Qed.
 
-(* keeps-value for `x in "<s>"` / `x not in "<s>"`, under the clause *)
-Lemma instr_keeps_value_partial : forall V s pol o,
+(* the rule before the repair: keeps-value only under the clause *)
+Lemma instr_iterate_rule_keeps_value_partial : forall V s pol o,
   wf_obj o = true -> member o V = true -> holds_instr s o = Some pol -> nonelementwise_container s o = false ->
-  member o (instr_narrow V s pol) = true.
+  member o (instr_narrow_with model_in_arg IterateAlways V s pol) = true.
 Proof.
   intros V s pol o Hw Hm Hh Hg. apply member_in in Hm. destruct Hm as [sv [Hin Hs]].
+  unfold instr_narrow_with. apply (member_flat_map o _ V sv Hin).
+  apply instr_member_kept_iterate; assumption.
+Qed.
+
+Lemma instr_member_kept : forall s sv pol o,
+  wf_obj o = true -> member_s o sv = true -> holds_instr s o = Some pol ->
+  member o (pred_instr_with model_in_arg model_typed_rule s sv pol) = true.
+Proof.
+  intros s sv pol o Hw Hm Hh. destruct o as [| | | |t| | | | | |]; try discriminate.
+  simpl in Hh. injection Hh as Hh. unfold pred_instr_with, model_in_arg, model_typed_rule.
+  assert (Hin : forall b, sbase sv = b -> is_known_b b = false ->
+                member (OStr t) (if pol then [sv] else pred_in (str_chars s) sv false) = true).
+  { intros b Eb Hk. destruct pol.
+    - rewrite member_single. exact Hm.
+    - apply (in_neg_sound (str_chars s) sv (OStr t) Hm). split; [exact Hw|].
+      destruct (existsb (py_eq (OStr t)) (str_chars s)) eqn:E; [|reflexivity].
+      apply chars_py_eq_infix in E. congruence. }
+  destruct (sbase sv) as [|l|c|c|ms|g] eqn:Eb;
+    try (pose proof (Hin _ eq_refl eq_refl) as Hx; destruct pol; exact Hx).
+  pose proof (member_s_base (OStr t) sv Hm) as Hb. rewrite Eb in Hb. simpl in Hb.
+  destruct l as [| | | |t'| | | | | |]; try discriminate. apply (list_eqb_eq N N.eqb N.eqb_eq) in Hb. subst t'.
+  rewrite Hh. rewrite Bool.eqb_reflx. rewrite member_single. exact Hm.
+Qed.
+
+(* keeps-value for `x in "<s>"` / `x not in "<s>"` (HEAD after the repair): no clause *)
+Lemma instr_keeps_value : forall V s pol o,
+  wf_obj o = true -> member o V = true -> holds_instr s o = Some pol ->
+  member o (instr_narrow V s pol) = true.
+Proof.
+  intros V s pol o Hw Hm Hh. apply member_in in Hm. destruct Hm as [sv [Hin Hs]].
   unfold instr_narrow, instr_narrow_with. apply (member_flat_map o _ V sv Hin).
   apply instr_member_kept; assumption.
 Qed.
 
-(* Literal members are tested with the container's own __contains__: they survive without any clause *)
-Lemma instr_literals_kept : forall V s pol o,
+(* Literal members are tested with the container's own __contains__: they survive under either rule *)
+Lemma instr_literals_kept : forall tr V s pol o,
   all_known V = true -> member o V = true -> holds_instr s o = Some pol ->
-  member o (instr_narrow V s pol) = true.
+  member o (instr_narrow_with model_in_arg tr V s pol) = true.
 Proof.
-  intros V s pol o Hk Hm Hh. apply member_in in Hm. destruct Hm as [sv [Hin Hs]].
-  unfold instr_narrow, instr_narrow_with. apply (member_flat_map o _ V sv Hin).
+  intros tr V s pol o Hk Hm Hh. apply member_in in Hm. destruct Hm as [sv [Hin Hs]].
+  unfold instr_narrow_with. apply (member_flat_map o _ V sv Hin).
   unfold all_known in Hk. rewrite forallb_forall in Hk. pose proof (Hk sv Hin) as Hsv.
   destruct o as [| | | |t| | | | | |]; try discriminate. simpl in Hh. injection Hh as Hh.
   unfold pred_instr_with, model_in_arg.
@@ -616,23 +646,26 @@ Qed.
 Definition s_abc : list N := [97; 98; 99]%N.
 Definition s_ab : list N := [97; 98]%N.
 
-(* the unchanged tree: `x: str`, `x in "abc"` narrows to Literal['a','b','c'] and loses 'ab' *)
-Lemma nonelementwise_container_refuted :
-  exists V s o, wf_obj o = true /\ member o V = true /\ holds_instr s o = Some true /\ nonelementwise_container s o = true /\ member o (instr_narrow V s true) = false.
+(* the rule before the repair: `x: str`, `x in "abc"` narrowed to Literal['a','b','c'] and lost 'ab' *)
+Lemma instr_iterate_rule_refuted :
+  exists V s o, wf_obj o = true /\ member o V = true /\ holds_instr s o = Some true /\
+    nonelementwise_container s o = true /\ member o (instr_narrow_with model_in_arg IterateAlways V s true) = false.
 Proof. exists [plain (VTyped CStr)], s_abc, (OStr s_ab). vm_compute. repeat split. Qed.
 
 (* the round-4 seed: handing the iterated elements to InPredicate loses a Literal member *)
 Lemma instr_elements_rule_refuted :
-  exists V s o, all_known V = true /\ member o V = true /\ holds_instr s o = Some true /\ member o (instr_narrow_with ArgElements V s true) = false.
+  exists V s o, all_known V = true /\ member o V = true /\ holds_instr s o = Some true /\
+    member o (instr_narrow_with ArgElements model_typed_rule V s true) = false.
 Proof. exists [plain (VKnown (OStr s_ab)); plain (VKnown (OStr [99%N]))], s_abc, (OStr s_ab). vm_compute. repeat split. Qed.
 
-(* a constraint applied to another variable than the tested one: the main theorem's hypothesis (the condition was
-   evaluated on the object bound to the narrowed variable) is exactly what fails *)
+(* the rule 180079d removed: a helper's constraint applied to a variable of the caller.  Not a statement about HEAD
+   (HEAD leaves the caller's variable alone): the main theorem's hypothesis (the condition was evaluated on the object
+   bound to the narrowed variable) is exactly what that rule violated *)
 Lemma leak_keeps_value_guarded : forall V c pol o,
   member o V = true -> holds c o = Some pol -> c02_guard c o = true -> member o (leak_narrow V c pol) = true.
 Proof. intros. unfold leak_narrow. apply narrow_keeps_value_partial; assumption. Qed.
 
-Lemma callee_leak_refuted :
+Lemma callee_leak_rule_refuted :
   exists V c pol o o', member o V = true /\ holds c o' = Some pol /\ c02_guard c o' = true /\ member o (leak_narrow V c pol) = false.
 Proof. exists [plain (VTyped CStr)], (CIsInstance [CInt]), true, (OStr s_ab), (OInt 1). vm_compute. repeat split. Qed.
 
